@@ -21,7 +21,7 @@ ALLOWED_AXIOMS = []
 TRUSTED_BASE = [
     "coqc 8.16.1 kernel (vm_compute used for refutation witnesses, non-vacuity examples and facts about scraped constants; no native_compute)",
     "no axioms: every theorem of coq/C18/Properties.v is 'Closed under the global context'",
-    "translator checks/C18.py:gen (regex scrape of lib/detail/minicoro.nelua and lib/coroutine.nelua: both enums, storage size, MCO_ZERO_MEMORY, description strings, status strings, panic messages, unregister/destroy order, argument rollback of a refused resume)",
+    "translator checks/C18.py:gen (regex scrape of lib/detail/minicoro.nelua and lib/coroutine.nelua: both enums, storage size, MCO_ZERO_MEMORY, description strings, status strings, panic messages, unregister/destroy order, argument rollback of a refused resume, the size passed to gc:register in coroutine.create)",
     "extraction: Require Extraction + ExtrOcamlBasic only; Z/positive/nat/string stay Coq inductives; no Extract Constant of our own",
     "coq/C18/glue.ml (local copy of the needed part of ocaml/zutil.ml: the extracted model contains Coq's string type, which shadows OCaml's inside zutil.ml) + coq/C18/codriver.ml (script text -> model ops, model lines -> text; encodes typed values as little-endian bytes)",
     "harness/C18/codriver.nelua (schedule interpreter on the real coroutine library; nothing of coroutine.nelua / minicoro is re-implemented), harness/C18/oracle.py (reference semantics), gcc, the real Nelua compiler built from /repo/src",
@@ -41,7 +41,7 @@ THEOREM_CLASSES = {
     "C18_destroy_behaviour": "main", "C18_refused_resume_unchanged": "corollary", "C18_gen_facts": "tripwire",
 }
 UNPROVED = [
-    "the context switch itself (_mco_switch, assembly) and 'local variables of every suspended frame are intact when it continues': no model; observed only through per-frame canaries (level frames, typed body arguments, the workers of `sub`) on every run",
+    "the context switch itself (_mco_switch, assembly) and 'local variables of every suspended frame are intact when it continues': no model; observed on every run through per-frame scalar canaries AND, in GC builds, through GC values (a `new`ed block with a finalizer, a concatenated string, a vector buffer) whose only reference is a local of the frame (level frames at every depth, the body functions themselves, the workers of `sub`), re-checked after every switch and at frame exit, with collections and allocation churn (`gc`, `sub`) in between; the finalizer reports a block collected while its frame is alive",
     "model = code: established by differential correspondence on generated schedules only (NSLOTS = 24, resume chains <= 24, frame depth <= 8 on the tested side; the theorems have no such bounds)",
     "the reference semantics Spec.v (stack of active resumes, suspended/dead flag, LIFO byte storage; written from the documentation) is refined by the model for EVERY command incl. printed lines (C18_refines_spec); what the refinement does not give: Spec.v's storage is the byte list (typed values are byte lists with their sizes, no value-level typing), its multi-value pop and the panics of the typed wrapper are by definition what the code does (documented), `sub`/`gc` are transcript-only in both, and the older invariant/transition theorems are proved directly on the model, not re-derived from the spec",
     "no open finding: the two repaired defects (destroy order 1075c3a, refused resume with arguments 6a782fc) are modelled as repaired, under scraped flags with fact lemmas (C18_gen_facts), so a revert breaks proofs and their witness schedules (replayed on every run in every build) fail the strict reference; the single exclusion left in C18_error_unchanged is the documented multi-value coroutine.pop (next item)",
@@ -209,8 +209,13 @@ def gen(ctx):
     if not mu:
         raise RuntimeError("cannot find the assertion of GC:unregister")
     out["panic_unregister"] = mu.group(1)
-    if not re.search(r"gc:register\(co, desc\.coro_size, 0, coroutine_gc, nilptr\)", co):
-        raise RuntimeError("coroutine.create no longer registers the coroutine in the GC")
+    # coroutine.create registers the coroutine with the collector: which size?  The whole block (desc.coro_size: header,
+    # context, storage AND stack) must be scanned, the outermost frames live at its very end
+    mreg = re.search(r"gc:register\(co,\s*([^,]+),\s*0,\s*coroutine_gc,\s*nilptr\)", co)
+    if not mreg:
+        raise RuntimeError("coroutine.create no longer registers the coroutine in the GC (no gc:register(co, <size>, 0, coroutine_gc, nilptr) call)")
+    out["gc_register_size_expr"] = mreg.group(1).strip()
+    out["gc_registers_whole_coro_block"] = out["gc_register_size_expr"] == "desc.coro_size"
 
     def pairs_z(l):
         return "[" + "; ".join("(%s, %d%%Z)" % (_coq_str(n), v) for n, v in l) + "]"
@@ -236,6 +241,7 @@ def gen(ctx):
     txt += "Definition PANIC_UNREGISTER : string := %s.\n" % _coq_str(out["panic_unregister"])
     txt += "Definition DESTROY_UNREGISTERS_FIRST : bool := %s.\n" % ("true" if out["destroy_unregisters_first"] else "false")
     txt += "Definition RESUME_ROLLS_BACK_ARGS : bool := %s.\n" % ("true" if out["resume_rolls_back_args"] else "false")
+    txt += "Definition GC_REGISTERS_WHOLE_CORO_BLOCK : bool := %s.\n" % ("true" if out["gc_registers_whole_coro_block"] else "false")
     vlib.write_if_changed(os.path.join(vlib.coq_dir(ID), "Gen.v"), txt)
     ORACLE.CAP = out["MCO_DEFAULT_STORAGE_SIZE"]     # policy constant: the reference semantics follows the source
     return out
@@ -487,6 +493,9 @@ def gen_schedule(rng, stream, gc, ncos, nops, maxchain, maxdepth, psub=0.6):
                 emit("yieldv %d %s" % (sh, vals(sh)))
             else:
                 emit("yield")
+            # collections and allocation churn while coroutines are suspended inside their frames
+            if not ref.done and rng.random() < 0.35:
+                emit("gc")
         elif r < 0.60 and live:
             k = rng.choice(live)
             sh = pick_shape_fitting(k)
